@@ -404,9 +404,16 @@ class BaseClientHandler:
         because they are no longer listening to the mailbox (but they will
         empty the list of pending expunges.
         """
+        # NOTE: Take the list before we await: while the push waits for a
+        #       slow client to drain, other sessions' commands run and queue
+        #       more notifications. Emptying the list after the push threw
+        #       those away (a lost EXPUNGE leaves the client one message off
+        #       for good).
+        #
         if self.pending_notifications:
-            await self.client.push(*self.pending_notifications)
+            pending = self.pending_notifications
             self.pending_notifications = []
+            await self.client.push(*pending)
 
     ##################################################################
     #
